@@ -28,7 +28,7 @@ func (c ComplexOrPlanner) Process(ctx *shared.PlannerContext) (sql.ISelect, erro
 			With(with).
 			Select(sql.NewSimpleCol("trace_id", "trace_id"),
 				sql.NewSimpleCol("_span_id", "span_id"),
-				sql.NewSimpleCol("max_timestamp_ns", "max_timestamp_ns")).
+				sql.NewSimpleCol("max_timestamp_ns", "timestamp_ns")).
 			From(sql.NewWithRef(with)).
 			Join(sql.NewJoin("array", sql.NewSimpleCol(with.GetAlias()+".span_id", "_span_id"), nil))
 	}
@@ -40,7 +40,7 @@ func (c ComplexOrPlanner) Process(ctx *shared.PlannerContext) (sql.ISelect, erro
 			selects: selects,
 		}, c.Prefix+"a")).
 		GroupBy(sql.NewRawObject("trace_id")).
-		OrderBy(sql.NewOrderBy(sql.NewRawObject("max(max_timestamp_ns)"), sql.ORDER_BY_DIRECTION_DESC)), nil
+		OrderBy(sql.NewOrderBy(sql.NewRawObject("max(timestamp_ns)"), sql.ORDER_BY_DIRECTION_DESC)), nil
 }
 
 type union struct {
